@@ -283,6 +283,90 @@ func builtLiterals() *ir.Module {
 	return m
 }
 
+// builtByHand attaches everything the way the exported slices allow: functions
+// made with ir.NewFunc or as a literal and appended to m.Funcs (their Parent is
+// nil: only Module.NewFunc and the parser set it), blocks made with ir.NewBlock
+// and appended to f.Blocks (Parent nil), instructions and terminators made with
+// the ir.New* constructors and put into b.Insts / b.Term, globals made with
+// ir.NewGlobalDef and appended to m.Globals. One function comes from m.NewFunc
+// so that attached and unattached functions are printed side by side.
+func builtByHand() *ir.Module {
+	m := ir.NewModule()
+	var gs []*ir.Global
+	for i := 0; i < 3; i++ {
+		g := ir.NewGlobalDef("", constant.NewInt(types.I32, int64(70000+i)))
+		m.Globals = append(m.Globals, g)
+		gs = append(gs, g)
+	}
+	md := &metadata.Tuple{MetadataID: -1}
+	m.MetadataDefs = append(m.MetadataDefs, md)
+	var prev *ir.Func
+	for i := 0; i < 4; i++ {
+		var f *ir.Func
+		switch i {
+		case 0: // struct literal
+			f = &ir.Func{Sig: types.NewFunc(types.I32, types.I32, types.I32), Params: []*ir.Param{ir.NewParam("", types.I32), ir.NewParam("", types.I32)}}
+			m.Funcs = append(m.Funcs, f)
+		case 3: // the attached way
+			f = m.NewFunc("", types.I32, ir.NewParam("", types.I32), ir.NewParam("", types.I32))
+		default:
+			f = ir.NewFunc("", types.I32, ir.NewParam("", types.I32), ir.NewParam("", types.I32))
+			m.Funcs = append(m.Funcs, f)
+		}
+		entry := ir.NewBlock("")
+		body := ir.NewBlock("")
+		exit := ir.NewBlock("")
+		f.Blocks = append(f.Blocks, entry, body, exit)
+		x := ir.NewLoad(types.I32, gs[i%3])
+		a := ir.NewAdd(x, f.Params[0])
+		c := ir.NewICmp(enum.IPredSLT, a, f.Params[1])
+		entry.Insts = append(entry.Insts, x, a, c)
+		entry.Term = ir.NewCondBr(c, body, exit)
+		mu := ir.NewMul(a, a)
+		mu.Metadata = append(mu.Metadata, &metadata.Attachment{Name: "foo", Node: md})
+		body.Insts = append(body.Insts, mu)
+		if prev != nil {
+			call := ir.NewCall(prev, mu, a)
+			body.Insts = append(body.Insts, call)
+		}
+		body.Term = ir.NewBr(exit)
+		phi := ir.NewPhi(ir.NewIncoming(a, entry), ir.NewIncoming(mu, body))
+		exit.Insts = append(exit.Insts, phi)
+		exit.Term = ir.NewRet(phi)
+		prev = f
+	}
+	return m
+}
+
+// editModule changes a printed module so that the cached IDs are stale: an
+// unnamed instruction in front of every function body, an unnamed global in
+// front of the globals, an unnumbered metadata definition in front of the
+// definitions. The next print has to renumber.
+func editModule(m *ir.Module) {
+	for _, f := range m.Funcs {
+		if len(f.Blocks) == 0 {
+			continue
+		}
+		b := f.Blocks[0]
+		ins := ir.NewAdd(constant.NewInt(types.I32, 1), constant.NewInt(types.I32, 2))
+		b.Insts = append([]ir.Instruction{ins}, b.Insts...)
+	}
+	g := ir.NewGlobalDef("", constant.NewInt(types.I16, 4097))
+	m.Globals = append([]*ir.Global{g}, m.Globals...)
+	m.MetadataDefs = append([]metadata.Definition{&metadata.Tuple{MetadataID: -1}}, m.MetadataDefs...)
+}
+
+// bringToStart puts a fresh module into the start state of a scenario.
+func bringToStart(m *ir.Module, start string) {
+	switch start {
+	case "already-printed":
+		_ = m.String()
+	case "printed-then-edited":
+		_ = m.String()
+		editModule(m)
+	}
+}
+
 // sources returns the module sources of a tier.
 func sources(tier string) []modSource {
 	out := []modSource{
@@ -290,6 +374,7 @@ func sources(tier string) []modSource {
 		{Name: "built:mix", Build: builtMix, Unnamed: true},
 		{Name: "built:wide", Build: builtWide, Unnamed: true},
 		{Name: "built:late-fields", Build: builtLateFields, Unnamed: true, Construction: "late-fields", ModulePrintersOnly: true},
+		{Name: "built:by-hand", Build: builtByHand, Unnamed: true, Construction: "by-hand", ModulePrintersOnly: true},
 		{Name: "built:literals", Build: builtLiterals, Unnamed: true, Construction: "literal", ModulePrintersOnly: true},
 	}
 	files, _ := filepath.Glob(filepath.Join(mbt.Repo, "asm", "testdata", "*.ll"))
